@@ -23,6 +23,7 @@ Inductive tsstep :=
   | TsNew                 (* g_ts = unique_ptr(new TaskScheduler): the old scheduler is destroyed, its workers joined *)
   | TsDefault (g : guard) (* if (g nThreads) nThreads = GetNumHardwareThreads(); *)
   | TsInit                (* g_ts->Initialize(nThreads) *)
+  | TsDrainOld            (* [if (g_ts)] g_ts->WaitforAll(): drains the PREVIOUS scheduler before it is replaced; no effect on thread counts *)
   | TsEarlyReturn | TsOther.
 (* what num_threads() returns *)
 Inductive repkind := RActiveValue | ROmpMax | RTaskThreads | RConst (k : Z) | ROther.
@@ -69,6 +70,7 @@ Fixpoint run_ts (f : facts) (hw : Z) (steps : list tsstep) (nt : Z) (fresh done 
   | TsNew :: r =>
       if done then None
       else run_ts f hw r nt true false (mkw (w_handle w) (w_controls w) (w_omp w) (w_ts w) 0 (w_peak w))
+  | TsDrainOld :: r => if fresh then None else run_ts f hw r nt fresh done w
   | TsDefault g :: r =>
       match eval_guard g nt with
       | Some c => run_ts f hw r (if c then hw else nt) fresh done w
